@@ -221,18 +221,24 @@ func wrapIfContextDone(ctx context.Context, err error) error {
 	if err == nil {
 		return nil
 	}
-	err = wrapIfContextError(err)
-	if _, ok := asError(err); ok {
-		return err
-	}
+	// Once the context is done, that's why the call fails - whatever the
+	// transport reports: for a context canceled with a cause net/http returns
+	// the cause, which may well be an error with a code of its own.
 	ctxErr := ctx.Err()
 	if errors.Is(ctxErr, context.Canceled) {
-		return NewError(CodeCanceled, err)
+		if connectErr, ok := asError(err); ok && connectErr.Code() == CodeCanceled {
+			return err
+		}
+		// (A cause may wrap io.EOF, too: the call didn't end, it was canceled.)
+		return NewError(CodeCanceled, hideEOF(err))
 	}
 	if errors.Is(ctxErr, context.DeadlineExceeded) {
-		return NewError(CodeDeadlineExceeded, err)
+		if connectErr, ok := asError(err); ok && connectErr.Code() == CodeDeadlineExceeded {
+			return err
+		}
+		return NewError(CodeDeadlineExceeded, hideEOF(err))
 	}
-	return err
+	return wrapIfContextError(err)
 }
 
 // wrapIfLikelyWithGRPCNotUsedError adds a wrapping error that has a message
